@@ -1504,6 +1504,14 @@ impl Zeroconf {
                     debug!("Exit command received, performing cleanup");
                     self.cleanup();
                     self.status = DaemonStatus::Shutdown;
+
+                    // Drop the commands queued behind `Exit`. The channel keeps its
+                    // queue for as long as any `ServiceDaemon` handle (a sender) is
+                    // alive, so without this the reply channels of those commands
+                    // would neither yield a value nor be closed, and a caller
+                    // waiting on one of them would block for ever.
+                    while receiver.try_recv().is_ok() {}
+
                     return Some(command);
                 }
                 self.exec_command(command, false);
